@@ -278,7 +278,7 @@ def execInstr (i : Instr) (m : M) : M :=
     let (r, m1) := m.popV
     match r with
     | none => m1.log (if m.ctx.weak then Diag.runtime_NoValueFoundForRightArgumentWeak else Diag.runtime_NoValueFoundForRightArgument)
-    | some .nil => m1.log Diag.runtime_NilValueFoundForRightArgumentWeak
+    | some .nil => (m1.log Diag.runtime_NilValueFoundForRightArgumentWeak).pushV .nil   -- an operation on nil yields nil
     | some rv =>
       match unaryOp n rv m1 with
       | some res => finishOp m1 res
@@ -287,12 +287,12 @@ def execInstr (i : Instr) (m : M) : M :=
     let (r, m1) := m.popV
     match r with
     | none => m1.log (if m.ctx.weak then Diag.runtime_NoValueFoundForRightArgumentWeak else Diag.runtime_NoValueFoundForRightArgument)
-    | some .nil => m1.log Diag.runtime_NilValueFoundForRightArgumentWeak
+    | some .nil => ((m1.log Diag.runtime_NilValueFoundForRightArgumentWeak).popV.2).pushV .nil   -- both operands consumed
     | some rv =>
       let (l, m2) := m1.popV
       match l with
       | none => m2.log (if m.ctx.weak then Diag.runtime_NoValueFoundForRightArgumentWeak else Diag.runtime_NoValueFoundForRightArgument)
-      | some .nil => m2.log Diag.runtime_NilValueFoundForRightArgumentWeak
+      | some .nil => (m2.log Diag.runtime_NilValueFoundForRightArgumentWeak).pushV .nil
       | some lv =>
         match binaryOp n lv rv m2 with
         | some res => finishOp m2 res
